@@ -162,7 +162,17 @@ def handlers(emit, repo):
         names = job["names"]
         descs = [{k: decode(tg[k]) for k in ("rewards", "players", "transition_list", "final_states")}
                  for tg in job["tgs"]]
-        solos = [{"pr": solo(tad, d, True), "un": solo(tad, d, False)} for d in descs]
+        # each game alone, in a fresh interpreter: no module state shared with the batch run
+        solos = []
+        runner = os.path.join(os.path.dirname(os.path.abspath(__file__)), "solo_runner.py")
+        for d in descs:
+            import json as _json
+            p = subprocess.run([sys.executable, runner, repo], input=_json.dumps({"desc_repr": repr(d)}).encode(),
+                               stdout=subprocess.PIPE, stderr=subprocess.PIPE, timeout=100,
+                               env=dict(os.environ, PYTHONDONTWRITEBYTECODE="1", PYTHONHASHSEED="0"))
+            if p.returncode != 0:
+                raise RuntimeError("solo runner failed: " + p.stderr.decode()[-500:])
+            solos.append(_json.loads(p.stdout.decode()))
         scratch = tempfile.mkdtemp(prefix="verif_batch_")
         cwd = os.getcwd()
         try:
@@ -241,4 +251,88 @@ def handlers(emit, repo):
             os.chdir(cwd)
             shutil.rmtree(scratch, ignore_errors=True)
 
-    return {"revdfs": job_revdfs, "malformed": job_malformed, "batch": job_batch}
+    def job_roborta(job):
+        """Write the three games of a board with the generator, read them back with the
+        solver's reader, project them into the specification's encoding."""
+        import copy
+        import logging
+        import shutil
+        import tempfile
+        from . import games as G
+        rg = _fresh("roberta_generator")
+        cr = _fresh("conditionalrewards")
+        tad = _fresh("tad")
+        logging.disable(logging.CRITICAL)
+        b = job["board"]
+        pr = job["probs"]
+        scratch = tempfile.mkdtemp(prefix="verif_rob_")
+        cwd = os.getcwd()
+        ev = {"e": "Roborta", "keys": [], "loaderr": "", "games": [], "exact": [], "raw": [], "outcomes": []}
+        try:
+            os.makedirs(os.path.join(scratch, "inputs"))
+            os.chdir(scratch)
+            path = "inputs/board.py"
+            try:
+                if job.get("via") == "manual":
+                    sg = _fresh("stochastic_game_from_roborta_board")
+                    before = set(listing(scratch))
+                    sg.create_sg_from_board(b["moves"], b["rewards"], b["loose"], pr["rb"] / 1e6, pr["lb"] / 1e6,
+                                            pr["tb"] / 1e6)
+                    new = sorted(set(listing(scratch)) - before)
+                    path = new[0] if len(new) == 1 else path
+                else:
+                    rg.write_robots(path, b["L"], b["W"], b["moves"], b["rewards"], b["loose"],
+                                    pr["tb"] / 1e6, pr["rb"] / 1e6, pr["lb"] / 1e6)
+                d = cr.read_dict_from_file(path)
+                ev["keys"] = [str(k) for k in d.keys()]
+            except Exception as exc:
+                ev["loaderr"] = type(exc).__name__
+                d = {}
+            if ev["keys"] == ["game_a", "game_b", "game_c"]:
+                for k in ev["keys"]:
+                    desc = d[k]
+                    raw = {"valid": True, "err": "", "minpos": True, "sumdev": 0}
+                    try:
+                        sgm = tad.StochasticGame(**copy.deepcopy(desc))
+                        sgm.check_game()
+                        sgm.init_states()
+                        if not desc["final_states"]:
+                            raise ValueError("no final")
+                    except Exception as exc:
+                        raw["valid"] = False
+                        raw["err"] = type(exc).__name__
+                    try:
+                        g, exact = G.from_python(desc, 10 ** 6)
+                        dev = 0.0
+                        for s, row in enumerate(desc["transition_list"]):
+                            if desc["players"][s] == "Probabilistic":
+                                if any(not (p > 0) for p, _ in row):
+                                    raw["minpos"] = False
+                                dev = max(dev, abs(sum(p for p, _ in row) - 1.0))
+                        raw["sumdev"] = int(min(dev * 1e15, 2 ** 31 - 1))
+                    except Exception as exc:
+                        g, exact = {"n": 0, "owner": [], "reward": [], "tr": [], "final": []}, False
+                        raw["valid"] = False
+                        raw["err"] = raw["err"] or type(exc).__name__
+                    raw["probsok"] = raw["minpos"] and raw["sumdev"] <= 1000
+                    outs = []
+                    if job.get("solve", True):
+                        for prune in (True, False):
+                            try:
+                                tad.StochasticGame(prune_states=prune, **copy.deepcopy(desc)).solve()
+                                outs.append({"prune": prune, "k": "Return"})
+                            except ValueError as exc:
+                                outs.append({"prune": prune,
+                                             "k": "nosolution" if "no solution" in str(exc).lower() else "ValueError"})
+                            except Exception as exc:
+                                outs.append({"prune": prune, "k": type(exc).__name__})
+                    ev["games"].append(g)
+                    ev["exact"].append(bool(exact))
+                    ev["raw"].append(raw)
+                    ev["outcomes"].append(outs)
+            emit(ev)
+        finally:
+            os.chdir(cwd)
+            shutil.rmtree(scratch, ignore_errors=True)
+
+    return {"revdfs": job_revdfs, "malformed": job_malformed, "batch": job_batch, "roborta": job_roborta}
